@@ -6,6 +6,7 @@ import (
 	"fmt"
 	"io"
 	"log/slog"
+	"os"
 	"runtime"
 	"slices"
 	"strconv"
@@ -13,7 +14,9 @@ import (
 	"sync"
 	"time"
 
+	"reduction.dev/reduction-protocol/handlerpb"
 	"reduction.dev/reduction/config"
+	"reduction.dev/reduction/connectors/embedded"
 	"reduction.dev/reduction/dkv"
 	"reduction.dev/reduction/dkv/kv"
 	"reduction.dev/reduction/dkv/recovery"
@@ -23,10 +26,10 @@ import (
 	"reduction.dev/reduction/jobs"
 	"reduction.dev/reduction/partitioning"
 	"reduction.dev/reduction/proto"
+	"reduction.dev/reduction/proto/jobpb"
 	"reduction.dev/reduction/proto/snapshotpb"
 	"reduction.dev/reduction/proto/workerpb"
 	"reduction.dev/reduction/workers/operator"
-	"reduction.dev/reduction-protocol/handlerpb"
 	"verif/harness/lib"
 )
 
@@ -48,6 +51,7 @@ type c06Inst struct {
 	db     *dkv.DB
 	own    c06Own
 	rg     partitioning.KeyGroupRange
+	dirty  bool                              // written since the last forced rotation (an empty memtable is never rotated by the code itself)
 	states map[int]*operator.KeyedStateStore // by key-group count (as Operator.HandleDeploy builds them)
 	timers map[int]*operator.TimerStore
 }
@@ -78,6 +82,109 @@ type c06World struct {
 	insts   map[int]*c06Inst
 	handles map[string]recovery.CheckpointHandle
 	keep    []any // everything that must stay reachable until the case ends (table cleanups delete files)
+
+	// cluster mode: real operators on a local directory (operators of a memory:// location do not share files)
+	tmp     string
+	lfs     storage.FileSystem
+	ops     map[int]*operator.Operator
+	names   map[int]string
+	acks    map[string]*snapshotpb.OperatorCheckpoint
+	job     *c06Job
+	cancels []context.CancelFunc
+}
+
+// c06Job records the operator checkpoints the real operators report (proto.Job)
+type c06Job struct {
+	proto.NoopJob
+	mu   sync.Mutex
+	acks map[string]*snapshotpb.OperatorCheckpoint
+}
+
+func (j *c06Job) OperatorCheckpointComplete(ctx context.Context, req *snapshotpb.OperatorCheckpoint) error {
+	j.mu.Lock()
+	defer j.mu.Unlock()
+	j.acks[req.OperatorId] = req
+	return nil
+}
+
+// c06Neighbor answers the table-cleanup question of a real OperatorPartition: every neighbour still needs every table,
+// so no shared file is deleted while a case runs (which instance may delete a table is C09's subject)
+type c06Neighbor struct{ proto.UnimplementedOperator }
+
+func (*c06Neighbor) NeedsTable(ctx context.Context, fileURI string) (bool, error) { return true, nil }
+
+// c06RealOp adapts a real operator.Operator to proto.Operator the way the worker's RPC layer does: Deploy = HandleDeploy
+type c06RealOp struct {
+	proto.UnimplementedOperator
+	id   string
+	op   *operator.Operator
+	mu   *sync.Mutex
+	uris *[]string
+}
+
+func (o *c06RealOp) ID() string   { return o.id }
+func (o *c06RealOp) Host() string { return "h" }
+func (o *c06RealOp) Deploy(ctx context.Context, req *workerpb.DeployOperatorRequest) error {
+	o.mu.Lock()
+	for _, c := range req.Checkpoints {
+		*o.uris = append(*o.uris, c.DkvFileUri)
+	}
+	o.mu.Unlock()
+	return o.op.HandleDeploy(ctx, req, &embedded.RecordingSink{})
+}
+
+func (w *c06World) cluster() error {
+	if w.tmp != "" {
+		return nil
+	}
+	slog.SetDefault(slog.New(slog.NewTextHandler(io.Discard, nil))) // the operators log through the default logger
+	tmp, err := os.MkdirTemp("", "verif-c06-")
+	if err != nil {
+		return err
+	}
+	w.tmp = tmp
+	w.lfs = storage.NewLocalFilesystem(tmp)
+	w.ops = map[int]*operator.Operator{}
+	w.names = map[int]string{}
+	w.acks = map[string]*snapshotpb.OperatorCheckpoint{}
+	w.job = &c06Job{acks: map[string]*snapshotpb.OperatorCheckpoint{}}
+	return nil
+}
+
+func (w *c06World) newOperator(id int) (*operator.Operator, string) {
+	name := fmt.Sprintf("%s-o%d", w.dir, id)
+	op := operator.NewOperator(operator.NewOperatorParams{
+		ID: name, Job: w.job,
+		NeighborOperatorFactory: func(string, *jobpb.NodeIdentity) proto.Operator { return &c06Neighbor{} },
+	})
+	ctx, cancel := context.WithCancel(context.Background())
+	w.cancels = append(w.cancels, cancel)
+	go func() { op.Start(ctx) }()
+	w.ops[id] = op
+	w.names[id] = name
+	w.keep = append(w.keep, op)
+	return op, name
+}
+
+// adopt registers the database a real operator opened in HandleDeploy as instance `id`
+func (w *c06World) adopt(id int, op *operator.Operator, cfg c07Cfg) string {
+	db := op.VerifDB()
+	if db == nil {
+		return "no-db"
+	}
+	own, _, _, _ := op.VerifKeyLayout(nil)
+	comp := db.VerifCompactor()
+	comp.L0RunNumCompactionTrigger = cfg.l0
+	comp.MaxSizeAmplificationPercent = cfg.maxAmp
+	comp.SmallestLevelSize = int64(cfg.smallest)
+	w.keep = append(w.keep, db)
+	w.insts[id] = &c06Inst{db: db, own: c06Own{operator.VerifNewOperatorPartition(own)}, rg: own,
+		states: map[int]*operator.KeyedStateStore{}, timers: map[int]*operator.TimerStore{}}
+	deadline := time.Now().Add(3 * time.Second)
+	for !op.VerifReady() && time.Now().Before(deadline) {
+		time.Sleep(200 * time.Microsecond)
+	}
+	return fmt.Sprintf("%d,%d", own.Start, own.End)
 }
 
 var c06Seq int
@@ -281,7 +388,11 @@ type c06Doc struct {
 // c06DumpCkpt reads the checkpoint document behind a handle the way a restoring instance does: the tables of every
 // level in document order with their entries and sequence numbers, and the WAL entries after `After`.
 func (w *c06World) dumpCkpt(h recovery.CheckpointHandle) string {
-	data, err := storage.ReadAll(w.root.Open(h.URI))
+	var fs storage.FileSystem = w.root
+	if !strings.HasPrefix(h.URI, "memory://") && w.lfs != nil {
+		fs = w.lfs
+	}
+	data, err := storage.ReadAll(fs.Open(h.URI))
 	if err != nil {
 		return "err read-doc"
 	}
@@ -297,7 +408,7 @@ func (w *c06World) dumpCkpt(h recovery.CheckpointHandle) string {
 		for i, l := range c.Levels {
 			var ts []string
 			for _, td := range l {
-				t := sst.NewTableFromDocument(w.root, c06Own{}, td)
+				t := sst.NewTableFromDocument(fs, c06Own{}, td)
 				w.keep = append(w.keep, t)
 				ts = append(ts, dumpTable(t))
 			}
@@ -309,7 +420,7 @@ func (w *c06World) dumpCkpt(h recovery.CheckpointHandle) string {
 		}
 		var ws []string
 		for _, hd := range c.WALs {
-			for e, err := range wal.NewReader(w.root, wal.NewHandle(w.root, hd)).All() {
+			for e, err := range wal.NewReader(fs, wal.NewHandle(fs, hd)).All() {
 				if err != nil {
 					return "err read-wal"
 				}
@@ -327,6 +438,31 @@ func (w *c06World) dumpCkpt(h recovery.CheckpointHandle) string {
 		return "ckpt " + strings.Join(levels, "/") + " " + wl
 	}
 	return "err no-checkpoint-in-doc"
+}
+
+// c06DocTriples splits a dumped checkpoint document into `key:del:value` triples of its tables and of its WAL
+func c06DocTriples(dump string) (tables, walEntries []string) {
+	f := strings.Fields(dump)
+	if len(f) != 3 || f[0] != "ckpt" {
+		return nil, nil
+	}
+	for _, lvl := range strings.Split(f[1], "/") {
+		if lvl == "e" {
+			continue
+		}
+		for _, t := range strings.Split(lvl, "|") {
+			for _, e := range strings.Split(t, ";") {
+				p := strings.Split(e, ":")
+				if len(p) == 4 {
+					tables = append(tables, p[0]+":"+p[2]+":"+p[3])
+				}
+			}
+		}
+	}
+	if f[2] != "e" {
+		walEntries = strings.Split(f[2], ";")
+	}
+	return tables, walEntries
 }
 
 func c06Scan(db *dkv.DB, prefix []byte, keep func([]byte) bool) string {
@@ -357,7 +493,13 @@ func runC06(c lib.Case) []string {
 		for _, in := range w.insts {
 			c06Wait(in.db)
 		}
+		for _, cancel := range w.cancels {
+			cancel()
+		}
 		runtime.KeepAlive(w.keep)
+		if w.tmp != "" {
+			os.RemoveAll(w.tmp)
+		}
 	}()
 	atoi := func(s string) int { v, _ := strconv.Atoi(s); return v }
 	out := make([]string, 0, len(c.Ops))
@@ -365,7 +507,7 @@ func runC06(c lib.Case) []string {
 		f := strings.Fields(op)
 		var in *c06Inst
 		switch f[0] {
-		case "put", "del", "settle", "ckpt", "get", "scan", "scanown", "seq", "sput", "sdel", "sget", "tput", "tearliest":
+		case "put", "del", "settle", "ckpt", "get", "scan", "scanown", "seq", "sput", "sdel", "sget", "tput", "tearliest", "leak", "rot", "cckpt":
 			in = w.insts[atoi(f[1])]
 			if in == nil {
 				out = append(out, "no-instance")
@@ -373,6 +515,143 @@ func runC06(c lib.Case) []string {
 			}
 		}
 		switch f[0] {
+		case "cnew": // cnew first kgc M: M real operators deployed together without checkpoints (Operator.HandleDeploy)
+			if err := w.cluster(); err != nil {
+				out = append(out, "err tmpdir")
+				continue
+			}
+			first, kgc, m := atoi(f[1]), atoi(f[2]), atoi(f[3])
+			ids := make([]*jobpb.NodeIdentity, m)
+			opsNew := make([]*operator.Operator, m)
+			for j := 0; j < m; j++ {
+				op, name := w.newOperator(first + j)
+				opsNew[j] = op
+				ids[j] = &jobpb.NodeIdentity{Id: name, Host: "h"}
+			}
+			var parts []string
+			for j, op := range opsNew {
+				err := op.HandleDeploy(context.Background(), &workerpb.DeployOperatorRequest{
+					Operators: ids, SourceRunnerIds: []string{"sr0"}, KeyGroupCount: int32(kgc), StorageLocation: w.tmp,
+				}, &embedded.RecordingSink{})
+				if err != nil {
+					parts = append(parts, "deploy-error")
+					continue
+				}
+				parts = append(parts, w.adopt(first+j, op, cfg))
+			}
+			out = append(out, strings.Join(parts, ";"))
+		case "rot": // seal the active memtable and flush it (what a full memtable does), then let flush/compaction finish
+			if in.dirty {
+				in.db.VerifRotate()
+				in.dirty = false
+			}
+			if !c06Wait(in.db) {
+				out = append(out, "timeout")
+				continue
+			}
+			out = append(out, "ok")
+		case "cckpt": // cckpt id cid: a checkpoint barrier from the operator's only source runner -> DB.Checkpoint -> ack to the job
+			op := w.ops[atoi(f[1])]
+			if op == nil {
+				out = append(out, "no-operator")
+				continue
+			}
+			c06Wait(in.db)
+			cid := uint64(atoi(f[2]))
+			done := make(chan error, 1)
+			go func() {
+				done <- op.HandleEvent(context.Background(), "sr0", &workerpb.Event{Event: &workerpb.Event_CheckpointBarrier{CheckpointBarrier: &workerpb.CheckpointBarrier{CheckpointId: cid}}})
+			}()
+			select {
+			case err := <-done:
+				if err != nil {
+					out = append(out, "err barrier "+strings.ReplaceAll(err.Error(), " ", "_"))
+					continue
+				}
+			case <-time.After(10 * time.Second):
+				out = append(out, "timeout")
+				continue
+			}
+			w.job.mu.Lock()
+			ack := w.job.acks[w.names[atoi(f[1])]]
+			w.job.mu.Unlock()
+			if ack == nil || ack.CheckpointId != cid {
+				out = append(out, "no-ack")
+				continue
+			}
+			w.acks[f[1]+":"+f[2]] = ack
+			h := recovery.CheckpointHandle{CheckpointID: cid, URI: ack.DkvFileUri}
+			w.handles[f[1]+":"+f[2]] = h
+			if int(ack.KeyGroupRange.Start) != in.rg.Start || int(ack.KeyGroupRange.End) != in.rg.End {
+				out = append(out, "ack-range-mismatch")
+				continue
+			}
+			out = append(out, w.dumpCkpt(h))
+		case "cdeploy": // cdeploy first kgc N cid acks: real Assembly.Deploy of N new real operators from the job checkpoint
+			if err := w.cluster(); err != nil {
+				out = append(out, "err tmpdir")
+				continue
+			}
+			first, kgc, n, cid := atoi(f[1]), atoi(f[2]), atoi(f[3]), f[4]
+			jc := &snapshotpb.JobCheckpoint{Id: uint64(atoi(cid))}
+			pos := map[string]int{}
+			okAcks := true
+			for i, ref := range strings.Split(f[5], ",") {
+				ack := w.acks[ref+":"+cid]
+				if ack == nil {
+					okAcks = false
+					break
+				}
+				jc.OperatorCheckpoints = append(jc.OperatorCheckpoints, ack)
+				pos[ack.DkvFileUri] = i
+			}
+			if !okAcks {
+				out = append(out, "no-ack")
+				continue
+			}
+			mu := &sync.Mutex{}
+			uris := make([][]string, n)
+			adapters := make([]proto.Operator, n)
+			opsNew := make([]*operator.Operator, n)
+			for i := 0; i < n; i++ {
+				op, name := w.newOperator(first + i)
+				opsNew[i] = op
+				adapters[i] = &c06RealOp{id: name, op: op, mu: mu, uris: &uris[i]}
+			}
+			done := make(chan error, 1)
+			go func() {
+				defer func() {
+					if r := recover(); r != nil {
+						done <- fmt.Errorf("panic %v", r)
+					}
+				}()
+				done <- jobs.NewAssembly(adapters, nil).Deploy(&config.Config{WorkerCount: n, KeyGroupCount: kgc, WorkingStorageLocation: w.tmp}, jc)
+			}()
+			select {
+			case err := <-done:
+				if err != nil {
+					out = append(out, "err deploy "+strings.ReplaceAll(err.Error(), " ", "_"))
+					continue
+				}
+			case <-time.After(20 * time.Second):
+				out = append(out, "timeout")
+				continue
+			}
+			a := make([][]int, n)
+			bad := ""
+			for i, op := range opsNew {
+				for _, u := range uris[i] {
+					a[i] = append(a[i], pos[u])
+				}
+				if r := w.adopt(first+i, op, cfg); r == "no-db" {
+					bad = "no-db"
+				}
+			}
+			if bad != "" {
+				out = append(out, bad)
+				continue
+			}
+			out = append(out, c06ShowAssign(a))
 		case "assign":
 			out = append(out, c06ShowAssign(partitioning.AssignRanges(c06Ranges(f[1]), c06Ranges(f[2]))))
 		case "assigncheck":
@@ -384,10 +663,12 @@ func runC06(c lib.Case) []string {
 			out = append(out, "ok")
 		case "put":
 			in.db.Put(lib.UnHex(f[2]), lib.UnHex(f[3]))
+			in.dirty = true
 			c06Wait(in.db)
 			out = append(out, "ok")
 		case "del":
 			in.db.Delete(lib.UnHex(f[2]))
+			in.dirty = true
 			c06Wait(in.db)
 			out = append(out, "ok")
 		case "settle":
@@ -424,6 +705,50 @@ func runC06(c lib.Case) []string {
 			out = append(out, "ok")
 		case "seq":
 			out = append(out, fmt.Sprintf("seq=%d", in.db.VerifSeqNum()))
+		case "leak": // leak id cid h1,h2: entries of the instance's NEXT checkpoint that it does not own and did not inherit in a source table
+			if !c06Wait(in.db) {
+				out = append(out, "timeout")
+				continue
+			}
+			h, err := in.db.Checkpoint(uint64(atoi(f[2])))()
+			if err != nil {
+				out = append(out, "err checkpoint")
+				continue
+			}
+			w.handles[f[1]+":"+f[2]] = h
+			inherited := map[string]bool{}
+			ok := true
+			for _, ref := range strings.Split(f[3], ",") {
+				sh, found := w.handles[ref]
+				if !found {
+					ok = false
+					break
+				}
+				tbl, _ := c06DocTriples(w.dumpCkpt(sh))
+				for _, t := range tbl {
+					inherited[t] = true
+				}
+			}
+			if !ok {
+				out = append(out, "no-handle")
+				continue
+			}
+			tbl, wal := c06DocTriples(w.dumpCkpt(h))
+			var extra []string
+			seen := map[string]bool{}
+			for _, t := range append(tbl, wal...) {
+				k := lib.UnHex(strings.SplitN(t, ":", 2)[0])
+				if !in.own.OwnsKey(k) && !inherited[t] && !seen[t] {
+					seen[t] = true
+					extra = append(extra, t)
+				}
+			}
+			slices.Sort(extra)
+			if len(extra) == 0 {
+				out = append(out, "none")
+			} else {
+				out = append(out, strings.Join(extra, ","))
+			}
 		case "get":
 			out = append(out, showEntry(in.db.Get(lib.UnHex(f[2]))))
 		case "scan":
@@ -441,6 +766,7 @@ func runC06(c lib.Case) []string {
 				mut = &handlerpb.StateMutation{Mutation: &handlerpb.StateMutation_Put{Put: &handlerpb.PutMutation{Key: lib.UnHex(f[5]), Value: lib.UnHex(f[6])}}}
 			}
 			err := in.stateStore(kgc).ApplyMutations(subj, []*handlerpb.StateMutationNamespace{{Namespace: string(lib.UnHex(f[4])), Mutations: []*handlerpb.StateMutation{mut}}})
+			in.dirty = true
 			c06Wait(in.db)
 			if err != nil {
 				out = append(out, "err")
@@ -477,6 +803,7 @@ func runC06(c lib.Case) []string {
 			}
 			t, _ := strconv.ParseUint(f[4], 10, 64)
 			in.timerStore(kgc).Put(subj, time.Unix(0, int64(t)))
+			in.dirty = true
 			c06Wait(in.db)
 			out = append(out, "ok")
 		case "tearliest": // tearliest id kgc: real TimerStore.GetEarliest over the operator's key groups
@@ -705,6 +1032,10 @@ func c06Rescale(r *lib.Rng, ops []string, p c06Plan, oldIDs []int, oldR [][2]int
 			ops = append(ops, fmt.Sprintf("open %d %d %d %d %d %s", base+i, nr[0], nr[1], p.memNew, p.target, strings.Join(hs, ",")))
 		}
 		ops = c06Observe(ops, base+i, nr, p.kgc, written)
+		if len(hs) > 0 {
+			// the content of the new operator's next checkpoint: nothing foreign beyond what shared source tables hold
+			ops = append(ops, fmt.Sprintf("leak %d %d %s", base+i, 90+cid, strings.Join(hs, ",")))
+		}
 	}
 	// writes after the restore to restored keys and new ones, then observe again (C03 behaviour after restore)
 	newIDs := make([]int, len(newR))
@@ -790,6 +1121,71 @@ func c06GenCase(r *lib.Rng, p c06Plan) lib.Case {
 	if p.l0stack {
 		c.Tags = append(c.Tags, "l0stack")
 	}
+	return c
+}
+
+// c06GenCluster: M real operators (Operator.HandleDeploy) write state, flush at chosen points, checkpoint through a
+// barrier from their source runner; the job checkpoint with the acknowledgements in a permuted order is handed to the real
+// Assembly.Deploy of N new real operators; then the usual observations, writes after the restore, and the content of the
+// next checkpoints.
+func c06GenCluster(r *lib.Rng) lib.Case {
+	kgc, m, n := lib.Pick(r, []int{3, 4, 7, 8, 16, 256}), r.Range(1, 4), r.Range(1, 4)
+	c := lib.Case{Header: fmt.Sprintf("M C06 l0=%d amp=%d smallest=%d", lib.Pick(r, []int{2, 2, 3, 9}), lib.Pick(r, []int{50, 200}), lib.Pick(r, []int{1, 268435456})),
+		Tags: []string{"cluster", fmt.Sprintf("m%d", m), fmt.Sprintf("n%d", n)}}
+	written := map[string]bool{}
+	oldR := c06GenRanges(kgc, m)
+	oldIDs := make([]int, m)
+	ops := []string{fmt.Sprintf("cnew 0 %d %d", kgc, m)}
+	tcount := 0
+	for round := 0; round < r.Range(1, 3); round++ {
+		for j, rg := range oldR {
+			oldIDs[j] = j
+			ops = c06Writes(r, ops, j, rg, r.Range(1, 6), written)
+			if rg[1] > rg[0] && r.Chance(2, 3) {
+				ops = append(ops, fmt.Sprintf("rot %d", j))
+			}
+		}
+		ops = c06StoreWrites(r, ops, oldIDs, kgc, r.Range(1, 5), &tcount)
+	}
+	acks := c06RandPerm(r, m)
+	for _, j := range acks {
+		ops = append(ops, fmt.Sprintf("cckpt %d 1", j))
+	}
+	ops = append(ops, fmt.Sprintf("cdeploy 100 %d %d 1 %s", kgc, n, c06PermStr(acks)))
+	newR := c06GenRanges(kgc, n)
+	newIDs := make([]int, n)
+	observe := func() {
+		for i, nr := range newR {
+			ops = c06Observe(ops, 100+i, nr, kgc, written)
+		}
+	}
+	for i := range newR {
+		newIDs[i] = 100 + i
+	}
+	observe()
+	for i, nr := range newR {
+		var hs []string
+		for _, j := range acks {
+			if c06Overlap(nr, oldR[j]) {
+				hs = append(hs, fmt.Sprintf("%d:1", j))
+			}
+		}
+		if len(hs) > 0 {
+			ops = append(ops, fmt.Sprintf("leak %d 91 %s", 100+i, strings.Join(hs, ",")))
+		}
+	}
+	ops = c06StoreWrites(r, ops, newIDs, kgc, r.Range(1, 4), &tcount)
+	for i, nr := range newR {
+		ops = c06Writes(r, ops, 100+i, nr, r.Range(1, 5), written)
+		if nr[1] > nr[0] && r.Chance(1, 2) {
+			ops = append(ops, fmt.Sprintf("rot %d", 100+i))
+		}
+	}
+	observe()
+	for _, id := range newIDs {
+		ops = append(ops, fmt.Sprintf("seq %d", id))
+	}
+	c.Ops = ops
 	return c
 }
 
@@ -899,6 +1295,20 @@ func propC06() *lib.Prop {
 				}}
 				cs = append(cs, l0c)
 			}
+			// the real path end to end: two real operators, acknowledgements in the order (1, 0), Assembly.Deploy of two and of
+			// three new real operators (D7 lost operator 0's state here)
+			for _, n := range []int{2, 3, 1} {
+				cl := lib.Case{Header: "M C06 l0=2 amp=50 smallest=1", Tags: []string{"cluster", "cluster-fixed"}, Ops: []string{
+					"cnew 0 8 2", "put 0 000161 aa", "put 1 000561 bb", "rot 0", "put 0 000261 cc",
+					"sput 0 8 7330 61 01 dd", "sput 1 8 7330 61 01 dd", "tput 0 8 7331 700", "tput 1 8 7331 700", "rot 1", "put 1 000661 ee",
+					"cckpt 1 1", "cckpt 0 1", fmt.Sprintf("cdeploy 100 8 %d 1 1,0", n),
+				}}
+				for i, nr := range c06GenRanges(8, n) {
+					cl.Ops = c06Observe(cl.Ops, 100+i, nr, 8, map[string]bool{"000161": true, "000561": true, "000261": true, "000661": true})
+				}
+				cl.Ops = append(cl.Ops, "put 100 000161 a2", "rot 100", "get 100 000161", "scan 100 0001", "seq 100")
+				cs = append(cs, cl)
+			}
 			// scale-in form of D6: the source with the highest sequence numbers sits in the base level, the other source
 			// has a level-0 table with small ones; the composite's sequence number must be above BOTH (the old
 			// instances number their writes independently), else a write to a restored key loses in scans
@@ -921,6 +1331,9 @@ func propC06() *lib.Prop {
 			return cs
 		},
 		Gen: func(r *lib.Rng, tier string, i int) lib.Case {
+			if i%6 == 5 {
+				return c06GenCluster(r)
+			}
 			p := c06Plan{kgc: lib.Pick(r, []int{2, 3, 4, 5, 7, 8, 16, 256}), m: r.Range(1, 5), n: r.Range(1, 5)}
 			p.perm = c06RandPerm(r, p.m)
 			if i%7 == 0 { // descending key order stresses the merged deeper levels
@@ -958,7 +1371,7 @@ func propC06() *lib.Prop {
 		},
 		Impl: runC06,
 		MObs: func(op string) bool {
-			return strings.HasPrefix(op, "ckpt ") || strings.HasPrefix(op, "open ") || strings.HasPrefix(op, "seq ") || strings.HasPrefix(op, "new ") || strings.HasPrefix(op, "settle ")
+			return strings.HasPrefix(op, "ckpt ") || strings.HasPrefix(op, "cckpt ") || strings.HasPrefix(op, "cnew ") || strings.HasPrefix(op, "rot ") || strings.HasPrefix(op, "open ") || strings.HasPrefix(op, "seq ") || strings.HasPrefix(op, "new ") || strings.HasPrefix(op, "settle ")
 		},
 		Nontrivial: func(c lib.Case, out []string) bool {
 			for _, o := range c.Ops {
@@ -967,6 +1380,11 @@ func propC06() *lib.Prop {
 					if strings.Contains(f[6], ",") {
 						return true
 					}
+				}
+			}
+			for _, o := range c.Ops {
+				if strings.HasPrefix(o, "cdeploy ") {
+					return true
 				}
 			}
 			return slices.Contains(c.Tags, "D6")
